@@ -309,6 +309,9 @@ def units(tier):
         wrap("C19.calc_PR[%s].mole_fractions" % w, unit_fraction, w)
         wrap("C19.calc_PR[%s].fugacity_loop" % w, unit_fugacity, w)
     wrap("C19.calc_PR[gases].P_of_Vm", unit_pressure)
+    from props import c19_more as MM
+    wrap("C19.gas_binary_parameters.k_ij==k_ji", MM.unit_binary_symmetric)
+    wrap("C19.calc_gas_pressures.EOS_at_gas_phase_pressure", MM.unit_fixed_pressure_call)
     return us
 
 
